@@ -144,7 +144,7 @@ class Builder:
             return ex.bioLinearUtility([ex.LinearTermTuple(beta=k[0], x=k[1])])
         if op == '_bioLogLogit':
             util = {key: k[1 + 2 * j] for j, key in enumerate(n['keys'])}
-            av = {key: k[2 + 2 * j] for j, key in enumerate(n['avkeys'])}
+            av = {key: k[2 + 2 * j] for j, key in reversed(list(enumerate(n['avkeys'])))}
             return _bioLogLogit(util, av, k[0])
         if op == '_bioLogLogitFullChoiceSet':
             return _bioLogLogitFullChoiceSet({key: k[1 + j] for j, key in enumerate(n['keys'])}, k[0])
